@@ -197,6 +197,39 @@ def cycle(res, X, origin, desc):
         pass
 
 
+def reshaped_patterns_purity(res, c):
+    """A pattern whose declared size was changed after its cells existed (shorter or narrower, longer or wider): saving
+    writes what it writes, but it does not touch the object."""
+    import rv.api as api
+    p = c.obj
+    pats = [q for q in p.patterns if isinstance(q, api.Pattern)]
+    if not pats:
+        return
+    rng = random.Random(c.index)
+    q = rng.choice(pats)
+    q.data      # the grid exists
+    how = rng.choice(("shorter", "narrower", "both"))
+    if how in ("shorter", "both") and q.lines > 1:
+        q.lines = max(1, q.lines // 2)
+    if how in ("narrower", "both") and q.tracks > 1:
+        q.tracks = max(1, q.tracks - 1)
+    res.count("purity_evaluations")
+    res.count("reshaped_pattern_saves")
+    try:
+        before = _snap(p)
+        Y = p.read()
+        after = _snap(p)
+        Y2 = p.read()
+    except Exception:
+        res.count("reshaped_pattern_unsaveable")
+        return
+    if before != after:
+        d = snapshot.diff(before, after)
+        res.violation(f"C05:impure-save:{snapshot.field_key(d[0][0]) if d else '?'}", f"saving a project whose pattern was made {how} changed the object: {d[:2]}", dict(c.describe(), reshaped=how))
+    elif Y != Y2:
+        res.violation(f"C05:two-saves-differ:{first_diff_chunk(Y, Y2)}", f"saving the same object (pattern made {how}) twice gives different bytes", dict(c.describe(), reshaped=how))
+
+
 def count_out_of_range(o):
     from rv.project import Project
     from rv.controller import Range
@@ -241,6 +274,8 @@ def run_shard(spec_, res):
             res.count("generated_unsaveable")
             continue
         sources.append((f"generated:{c.kind}", raw, c.describe()))
+        if c.kind == "project":
+            reshaped_patterns_purity(res, c)
         if i % 2 == 0:
             # the same content as ANOTHER writer would store it (the independent reference encoder with random format choices):
             # X need not be something this library would ever write itself
